@@ -292,4 +292,99 @@ theorem feb29_leap (x : Date) (hv : x.valid = true) (hm : x.m = 2) (hd : x.d = 2
     omega
   · rfl
 
+theorem swiftDate_months (x : DateTime) (hv : x.date.valid = true) (n : Nat) (hn : 1 ≤ n) (pos : Bool) (r : DateTime)
+    (h : swiftDate x .M n pos = some r) :
+    r.date.valid = true ∧ r.secs = x.secs ∧
+    (pos = true → (durHolds x.date r.date n .MON ↔ dayFits x.date n)) ∧
+    (pos = false → (durHolds r.date x.date n .MON ↔ dayFits x.date (-(n : Int)))) := by
+  unfold swiftDate at h
+  rw [if_neg (by omega)] at h
+  simp only at h
+  unfold addDelta at h
+  cases pos with
+  | true =>
+    simp only [if_true] at h
+    cases hd : datedeltaAdd x.date 0 (n : Int) 0 with
+    | none => simp [hd] at h
+    | some r0 =>
+      simp only [hd, Option.map_some, Option.some.injEq] at h
+      subst h
+      have s := months_forward_iff x.date hv n hn r0 hd
+      exact ⟨s.1, rfl, fun _ => s.2, fun c => by simp at c⟩
+  | false =>
+    simp only [Bool.false_eq_true, if_false] at h
+    cases hd : datedeltaAdd x.date 0 (-(n : Int)) 0 with
+    | none => simp [hd] at h
+    | some r0 =>
+      simp only [hd, Option.map_some, Option.some.injEq] at h
+      subst h
+      have s := months_backward_iff x.date hv n hn r0 hd
+      exact ⟨s.1, rfl, fun c => by simp at c, fun _ => s.2⟩
+
+theorem swiftDate_years (x : DateTime) (hv : x.date.valid = true) (n : Nat) (hn : 1 ≤ n) (pos : Bool) (r : DateTime)
+    (h : swiftDate x .Y n pos = some r) :
+    r.date.valid = true ∧ r.secs = x.secs ∧
+    (pos = true → (durHolds x.date r.date n .Y ↔ ¬ leapDayLost x.date n)) ∧
+    (pos = false → (durHolds r.date x.date n .Y ↔ ¬ leapDayLost x.date (-(n : Int)))) := by
+  unfold swiftDate at h
+  rw [if_neg (by omega)] at h
+  simp only at h
+  unfold addDelta at h
+  cases pos with
+  | true =>
+    simp only [if_true] at h
+    cases hd : datedeltaAdd x.date (n : Int) 0 0 with
+    | none => simp [hd] at h
+    | some r0 =>
+      simp only [hd, Option.map_some, Option.some.injEq] at h
+      subst h
+      have s := years_shift_iff x.date hv n (by omega) r0 hd
+      refine ⟨s.1, rfl, fun _ => ?_, fun c => by simp at c⟩
+      rw [← s.2.2]; simp only [durHolds]
+      constructor
+      · intro ⟨_, b, c⟩; exact ⟨b.symm, c.symm⟩
+      · intro ⟨b, c⟩; exact ⟨by omega, b.symm, c.symm⟩
+  | false =>
+    simp only [Bool.false_eq_true, if_false] at h
+    cases hd : datedeltaAdd x.date (-(n : Int)) 0 0 with
+    | none => simp [hd] at h
+    | some r0 =>
+      simp only [hd, Option.map_some, Option.some.injEq] at h
+      subst h
+      have s := years_shift_iff x.date hv (-(n : Int)) (by omega) r0 hd
+      refine ⟨s.1, rfl, fun c => by simp at c, fun _ => ?_⟩
+      rw [← s.2.2]; simp only [durHolds]
+      constructor
+      · intro ⟨_, b, c⟩; exact ⟨b, c⟩
+      · intro ⟨b, c⟩; exact ⟨by omega, b, c⟩
+
+/-- the calendar units of `_parse_duration` -/
+def calUnit : PerUnit → WF.DUnit
+  | .M => .MON | .Y => .Y | .W => .W | .D => .D
+
+/-- shifting `x` by `k` months / years keeps its day of the month (months: the day exists in the target month; years: not
+a 29 February that meets a year without one) -/
+def shiftKeeps (u : PerUnit) (x : Date) (k : Int) : Prop :=
+  match u with
+  | .M => dayFits x k
+  | .Y => ¬ leapDayLost x k
+  | _ => True
+
+theorem swiftDate_cal (u : PerUnit) (hu : u = .M ∨ u = .Y) (x : DateTime) (hv : x.date.valid = true) (n : Nat) (hn : 1 ≤ n)
+    (pos : Bool) (r : DateTime) (h : swiftDate x u n pos = some r) :
+    r.date.valid = true ∧ r.secs = x.secs ∧
+    (pos = true → (durHolds x.date r.date n (calUnit u) ↔ shiftKeeps u x.date n)) ∧
+    (pos = false → (durHolds r.date x.date n (calUnit u) ↔ shiftKeeps u x.date (-(n : Int)))) := by
+  rcases hu with c | c <;> subst c
+  · exact swiftDate_months x hv n hn pos r h
+  · exact swiftDate_years x hv n hn pos r h
+
+theorem triple_tx (b' e' : DateTime) (cnt : Nat) (letter : Nat) :
+    [40] ++ luisOf b' ++ [44] ++ luisOf e' ++ [44, 80] ++ natStr cnt ++ [letter, 41] = dateTriple b'.date e'.date cnt letter := by
+  simp [dateTriple, luisOf]
+
+theorem cal_letter (u : PerUnit) (hu : u = .M ∨ u = .Y) :
+    (u.letter = 77 ∧ calUnit u = .MON) ∨ (u.letter = 89 ∧ calUnit u = .Y) := by
+  rcases hu with c | c <;> subst c <;> simp [PerUnit.letter, calUnit]
+
 end RTV.Periods2
